@@ -44,10 +44,10 @@ DEFAULTS = dict(
     ScalDom={"name": {"s0", "s1", "s2"}, "binary_path": {"s0", "s2"}, "isa": {"E0", "E1"}, "file_format": {"E0", "E1"},
              "byte_order": {"E0", "E1"}, "preferred_addr": {"0", "MAX64"}, "rebase_delta": {"0", "MIN64"},
              "at_end": {"F", "T"}, "decode_mode": {"E0", "E1"}, "xoffset": {"0", "MIN64"}, "xscale": {"1", "-1"},
-             "version": {"CUR"}},
+             "version": {"CUR"}, "kindflip": {"F"}},
     ScalDef={"name": "s0", "binary_path": "s0", "isa": "E0", "file_format": "E0", "byte_order": "E0",
              "preferred_addr": "0", "rebase_delta": "0", "at_end": "F", "decode_mode": "E0", "xoffset": "0",
-             "xscale": "1", "version": "CUR"},
+             "xscale": "1", "version": "CUR", "kindflip": "F"},
     ExprKind={}, ExprSym2={}, Symx0=set(), Cfg0=set(), Pay0=set(), Entry0=set(), Geom0=set(), ReloadWeight=1, SweepOps={"reload"}, SweepMode=False,
 )
 
@@ -323,7 +323,7 @@ def proto_base(schema):
                  "byte_order": {"E%d" % k for k in range(n["ByteOrder"])},
                  "decode_mode": {"E%d" % k for k in range(n["DecodeMode"])},
                  "preferred_addr": {"0", "1", "MAX64", "2^63"}, "rebase_delta": {"0", "1", "-1", "MIN64", "MAX63"},
-                 "at_end": {"F", "T"}, "version": {"CUR", "NEXT", "ZERO"}, "xoffset": {"0", "1", "-1", "MIN64", "MAX63"},
+                 "at_end": {"F", "T"}, "kindflip": {"F"}, "version": {"CUR", "NEXT", "ZERO"}, "xoffset": {"0", "1", "-1", "MIN64", "MAX63"},
                  "xscale": {"0", "1", "-1", "MIN64", "MAX63"}},
         EmitKeys={"mods", "kids", "par", "cache", "addr", "isz", "off", "bsz", "sname", "pay", "symx", "cfg", "bytes",
                   "tags", "entry", "scal", "mnamed"},
